@@ -50,6 +50,8 @@ PROP = Property(
           "environments <= 3 scopes x 2 slots, ids over {none,0,1}, names over {a,b}"),
     ],
     harnesses=hs,
+    # resolver.rs is shared with C09, whose 9.c harness enters this generated copy of check_expr
+    duplicates=[(R, "src/resolver.rs", "check_expr", "verif_outer_check_expr", "impl<'ast, 'res> Resolver<'ast, 'res>")],
     assumptions=[
         "routine-level contracts on the resolver's symbol tables for every table content within the shape; that block entry/exit pushes and pops exactly one scope per lexical block (so that the table content IS the lexical context) is an argument here, not a check: the routines that maintain the tables index arena vectors with indices read back from arena memory, which does not fit in a SAT instance on this machine (DESIGN.md 4)",
     ],
